@@ -55,7 +55,7 @@ func (d *Doctor) diagnoseCommit(com *objects.Commit) *Issue {
 			}
 		}
 		for j := 0; j < len(blk); j++ {
-			if slice.StringSliceEqual(blk[j], prevRow) {
+			if (i > 0 || j > 0) && slice.StringSliceEqual(blk[j], prevRow) {
 				return &Issue{
 					Err:        fmt.Sprintf("duplicated rows: %d,%d", j-1, j),
 					Resolution: ReingestResolution,
